@@ -464,3 +464,26 @@ def incidence_follows_the_new_order(K):
             if p > i:
                 lower.append(K.Not(want))
     K.ensure("is_sequential is judged on the reordered matrix", K.truth(K.getattr(ml, "is_sequential")) == K.And(*lower))
+
+
+# ------------------------------------------------------------------------------ the order sequentialize() asks reorder_equations to apply
+@contract("C16", targets=[PB + "sequentialize_strictly", PB + "prefetch", PB + "_prefetch_first", PB + "_prefetch_last", PB + "_split_ids"],
+          instances=[(3,)], cross=4, opts={"max_paths": 6000})
+def strict_sequential_order_or_an_incomplete_one(K, n):
+    """sequentialize_strictly on the incidence matrix of a Sequential model (every equation contains its own left-hand
+    variable: full diagonal; all other entries arbitrary): when it returns ALL equations, they are a permutation in
+    which no equation uses a variable determined later; when no such order exists (a contemporaneous loop) what it
+    returns is NOT a complete order - which reorder_equations (own contract) rejects, leaving the model untouched."""
+    import itertools
+    im = K.array("IM", (n, n), kind="bool")
+    for i in range(n):
+        K.assume(K.bool_cell(im, i, i))
+    order = list(K.call(BZ.sequentialize_strictly, im))
+    cell = lambda i, j: K.bool_cell(im, i, j)      # noqa: E731
+    exists = K.Or(*[K.And(*[K.Not(cell(p[i], p[j])) for i in range(n) for j in range(i + 1, n)]) for p in itertools.permutations(range(n))])
+    if len(order) == n and sorted(order) == list(range(n)):
+        K.ensure("a complete order puts nothing above the diagonal", K.And(*[K.Not(cell(order[i], order[j])) for i in range(n) for j in range(i + 1, n)]))
+    else:
+        K.ensure("an incomplete answer only when no sequential order exists", K.Not(exists))
+        K.ensure("... and it never pretends to be complete", not (len(order) == n and sorted(order) == list(range(n))))
+    K.ensure("whenever a sequential order exists, a complete one is returned", K.Implies(exists, len(order) == n and sorted(order) == list(range(n))))
